@@ -100,6 +100,10 @@ func NewPwAligner(seq1, seq2 Sequence, algo int) *pwaligner {
 func (a *pwaligner) initMatrix(l1, l2 int) {
 	var i int
 
+	// The maximum is the one of this matrix (the aligner may be
+	// used several times, with other scores)
+	a.maxscore, a.maxi, a.maxj = .0, 0, 0
+
 	a.matrix = make([][]float64, l1)
 	a.trace = make([][]int, l1)
 	a.maxa = make([]float64, l2)
